@@ -353,6 +353,52 @@ func init() {
 	}
 }
 
+// TypeName reads an entity type: an atomic name ("NS::T") or, in the syntax universes,
+// the sequence of its path components (["NS", "T"]).
+func TypeName(j J) (string, error) {
+	if s, ok := j.(string); ok {
+		return s, nil
+	}
+	arr, err := asArr(j)
+	if err != nil {
+		return "", err
+	}
+	parts := make([]string, len(arr))
+	for i, p := range arr {
+		if parts[i], err = asStr(p); err != nil {
+			return "", err
+		}
+	}
+	return strings.Join(parts, "::"), nil
+}
+
+// SplitTypes rewrites every "ty" name in a wire tree into its path components.
+func SplitTypes(j J) J {
+	switch t := j.(type) {
+	case Obj:
+		out := Obj{}
+		for k, v := range t {
+			if s, ok := v.(string); ok && k == "ty" {
+				parts := []any{}
+				for _, p := range strings.Split(s, "::") {
+					parts = append(parts, p)
+				}
+				out[k] = parts
+			} else {
+				out[k] = SplitTypes(v)
+			}
+		}
+		return out
+	case []any:
+		out := make([]any, len(t))
+		for i, v := range t {
+			out[i] = SplitTypes(v)
+		}
+		return out
+	}
+	return j
+}
+
 func UIDToJ(e types.EntityUID) J {
 	return Obj{"k": "ent", "ty": NameToWire(string(e.Type)), "id": NameToWire(string(e.ID))}
 }
@@ -362,7 +408,7 @@ func JToUID(j J) (types.EntityUID, error) {
 	if err != nil {
 		return types.EntityUID{}, err
 	}
-	tyS, err := asStr(o["ty"])
+	tyS, err := TypeName(o["ty"])
 	if err != nil {
 		return types.EntityUID{}, err
 	}
@@ -665,7 +711,7 @@ func JToNode(j J) (ast.IsNode, error) {
 		if err != nil {
 			return nil, err
 		}
-		tyW, _ := o["ty"].(string)
+		tyW, _ := TypeName(o["ty"])
 		ty, err := NameFromWire(tyW)
 		if err != nil {
 			return nil, err
@@ -867,7 +913,7 @@ func jToScope(j J) (any, error) {
 	}
 	t, _ := o["t"].(string)
 	ty := func() (types.EntityType, error) {
-		s, _ := o["ty"].(string)
+		s, _ := TypeName(o["ty"])
 		n, err := NameFromWire(s)
 		return types.EntityType(n), err
 	}
